@@ -91,6 +91,9 @@ type Term struct {
 
 func (t *Term) ID() int { return t.id }
 
+// HasBound reports whether t mentions a bound variable.
+func (t *Term) HasBound() bool { return t.open }
+
 // Ctx is a hash-consing context. Not safe for concurrent mutation.
 type Ctx struct {
 	tab   map[string]*Term
@@ -192,13 +195,18 @@ func (c *Ctx) BoundVar(name string, s *Sort) *Term {
 	return c.mk(&Term{Op: "bound", Name: fmt.Sprintf("%s?%d", sanitize(name), c.fresh["$b"]), Sort: s})
 }
 
+// Sanitize is the name mangling applied to function symbols.
+func Sanitize(s string) string { return sanitize(s) }
+
 func sanitize(s string) string {
+	// symbols are always printed quoted (|...|): only the quote character,
+	// the backslash and white space must go
 	var sb strings.Builder
 	for _, r := range s {
-		if r >= 'a' && r <= 'z' || r >= 'A' && r <= 'Z' || r >= '0' && r <= '9' || r == '_' || r == '.' || r == '$' || r == '!' || r == '?' || r == '#' {
-			sb.WriteRune(r)
-		} else {
+		if r == '|' || r == '\\' || r == ' ' || r == '\t' || r == '\n' {
 			sb.WriteByte('_')
+		} else {
+			sb.WriteRune(r)
 		}
 	}
 	return sb.String()
